@@ -52,8 +52,8 @@ Definition classify_stmt (tok : token) : stmt_class :=
   | TLiteral _ _ => SCSimple
   | TKeyword KFunc | TKeyword KStruct | TKeyword KMap | TKeyword KChan
   | TKeyword KInterface => SCSimple
-  | TOperator OAdd | TOperator OSub | TOperator OStar | TOperator OXor | TOperator OArrow
-  | TOperator ONot | TOperator OParenLeft | TOperator OBarackLeft => SCSimple
+  | TOperator OAdd | TOperator OSub | TOperator OStar | TOperator OXor | TOperator OAnd
+  | TOperator OArrow | TOperator ONot | TOperator OParenLeft | TOperator OBarackLeft => SCSimple
   | TKeyword KVar => SCVar
   | TKeyword KType => SCType
   | TKeyword KConst => SCConst
@@ -87,11 +87,14 @@ Section Core.
 Variables (A G D C E : Type).
 
 Record ops : Type := {
-  d_next : D -> G -> option A -> D;      (* comment loop of Parser::next *)
+  (* comment loop of Parser::next: state, end of the token left behind (None before the
+     first token), comments in front of the token moved onto, its start (None at EOF) *)
+  d_next : D -> option A -> G -> option A -> D;
   d_goback : D -> D;                     (* Parser::goback's effect on the comment state *)
   d_drain : D -> C * D;                  (* drain_comments *)
   (* line_end_comment: the field's docs come back with the trailing comment pushed, if any *)
-  d_line_end : D -> A -> G -> option A -> C -> C * G * D;
+  (* ... and the end of that trailing comment (where the following Parser::next starts from) *)
+  d_line_end : D -> A -> G -> option A -> C -> C * G * D * option A;
   c_empty : C;
   a_plus2 : A -> A                       (* pos + 2 in parse_go_stmt / parse_defer_stmt *)
 }.
@@ -119,7 +122,8 @@ Record pstate : Type := {
   s_spos : A;                     (* Scanner.pos as a position *)
   s_lp : nat; s_ln : nat;         (* expr_level = s_lp - s_ln - 1 *)
   s_d : D;
-  s_started : bool
+  s_started : bool;
+  s_depth : nat                   (* Parser.depth *)
 }.
 
 Inductive res (X : Type) : Type :=
@@ -142,13 +146,16 @@ Notation "'let*' ( x , s ) ':=' m 'in' k" := (bind m (fun x s => k))
 
 Definition upd_cur (s : pstate) (c : option (A * token)) : pstate :=
   {| s_cur := c; s_rest := s_rest s; s_mark := s_mark s; s_term := s_term s; s_spos := s_spos s;
-     s_lp := s_lp s; s_ln := s_ln s; s_d := s_d s; s_started := s_started s |}.
+     s_lp := s_lp s; s_ln := s_ln s; s_d := s_d s; s_started := s_started s; s_depth := s_depth s |}.
 Definition upd_d (s : pstate) (d : D) : pstate :=
   {| s_cur := s_cur s; s_rest := s_rest s; s_mark := s_mark s; s_term := s_term s; s_spos := s_spos s;
-     s_lp := s_lp s; s_ln := s_ln s; s_d := d; s_started := s_started s |}.
+     s_lp := s_lp s; s_ln := s_ln s; s_d := d; s_started := s_started s; s_depth := s_depth s |}.
+Definition upd_depth (s : pstate) (n : nat) : pstate :=
+  {| s_cur := s_cur s; s_rest := s_rest s; s_mark := s_mark s; s_term := s_term s; s_spos := s_spos s;
+     s_lp := s_lp s; s_ln := s_ln s; s_d := s_d s; s_started := s_started s; s_depth := n |}.
 Definition upd_level (s : pstate) (lp ln : nat) : pstate :=
   {| s_cur := s_cur s; s_rest := s_rest s; s_mark := s_mark s; s_term := s_term s; s_spos := s_spos s;
-     s_lp := lp; s_ln := ln; s_d := s_d s; s_started := s_started s |}.
+     s_lp := lp; s_ln := ln; s_d := s_d s; s_started := s_started s; s_depth := s_depth s |}.
 
 (* ------------------------------------------------------------ errors *)
 
@@ -174,7 +181,21 @@ Definition level_nonneg (s : pstate) : bool := (S (s_ln s) <=? s_lp s)%nat.
 (* expr_level = -1 *)
 Definition reset_level (s : pstate) : pstate := upd_level s 0 0.
 
+(* Parser::nested: the recursion hubs count how many of them are open *)
+Definition MAX_NESTING : nat := 192.
+Definition nested {X} (site : nat) (f : pstate -> res X) (s : pstate) : res X :=
+  let s1 := upd_depth s (S (s_depth s)) in
+  match (if (S MAX_NESTING <=? s_depth s1)%nat then Err (else_error s1 site) s1 else f s1) with
+  | Ok x s2 => Ok x (upd_depth s2 (pred (s_depth s2)))
+  | Err e s2 => Err e (upd_depth s2 (pred (s_depth s2)))
+  | Panic n => Panic n
+  | Fuel => Fuel
+  end.
+
 (* ------------------------------------------------------------ token movement *)
+
+(* `self.is_started.then(|| self.scan.position())` *)
+Definition prev_end (s : pstate) : option A := if s_started s then Some (s_spos s) else None.
 
 (* Parser::next: scan the next non-comment token; comments go through d_next *)
 Definition next (s : pstate) : res unit :=
@@ -182,18 +203,18 @@ Definition next (s : pstate) : res unit :=
   | SE a0 a1 t g :: r =>
       Ok tt {| s_cur := Some (a0, t); s_rest := r; s_mark := s_rest s; s_term := s_term s;
                s_spos := a1; s_lp := s_lp s; s_ln := s_ln s;
-               s_d := d_next OPS (s_d s) g (Some a0); s_started := true |}
+               s_d := d_next OPS (s_d s) (prev_end s) g (Some a0); s_started := true; s_depth := s_depth s |}
   | [] =>
       match s_term s with
       | TEof a g =>
           Ok tt {| s_cur := None; s_rest := []; s_mark := []; s_term := s_term s;
                    s_spos := a; s_lp := s_lp s; s_ln := s_ln s;
-                   s_d := d_next OPS (s_d s) g None; s_started := true |}
+                   s_d := d_next OPS (s_d s) (prev_end s) g None; s_started := true; s_depth := s_depth s |}
       | TErr e g =>
           Err (PScan e)
               {| s_cur := s_cur s; s_rest := []; s_mark := []; s_term := s_term s;
                  s_spos := s_spos s; s_lp := s_lp s; s_ln := s_ln s;
-                 s_d := s_d s; s_started := true |}
+                 s_d := s_d s; s_started := true; s_depth := s_depth s |}
       end
   end.
 
@@ -204,13 +225,13 @@ Definition goback (m : list selem) (s : pstate) : res unit :=
   | SE a0 a1 t g :: r =>
       Ok tt {| s_cur := Some (a0, t); s_rest := r; s_mark := m; s_term := s_term s;
                s_spos := a1; s_lp := s_lp s; s_ln := s_ln s;
-               s_d := d_goback OPS (s_d s); s_started := s_started s |}
+               s_d := d_goback OPS (s_d s); s_started := s_started s; s_depth := s_depth s |}
   | [] =>
       match s_term s with
       | TEof a _ =>
           Ok tt {| s_cur := None; s_rest := []; s_mark := []; s_term := s_term s;
                    s_spos := a; s_lp := s_lp s; s_ln := s_ln s;
-                   s_d := d_goback OPS (s_d s); s_started := s_started s |}
+                   s_d := d_goback OPS (s_d s); s_started := s_started s; s_depth := s_depth s |}
       | TErr _ _ => Panic 155      (* self.scan_next().unwrap() *)
       end
   end.
@@ -260,22 +281,24 @@ Definition line_end_comment (c : C) (s : pstate) : res C :=
     let semi := cur_pos s in
     match s_rest s with
     | SE a0 a1 t g :: r =>
-        let '(c', g', d') := d_line_end OPS (s_d s) semi g (Some a0) c in
+        let '(c', g', d', ce) := d_line_end OPS (s_d s) semi g (Some a0) c in
+        let pe := match ce with Some e => Some e | None => Some (s_spos s) end in
         Ok c' {| s_cur := Some (a0, t); s_rest := r; s_mark := s_rest s; s_term := s_term s;
                  s_spos := a1; s_lp := s_lp s; s_ln := s_ln s;
-                 s_d := d_next OPS d' g' (Some a0); s_started := true |}
+                 s_d := d_next OPS d' pe g' (Some a0); s_started := true; s_depth := s_depth s |}
     | [] =>
         match s_term s with
         | TEof a g =>
-            let '(c', g', d') := d_line_end OPS (s_d s) semi g None c in
+            let '(c', g', d', ce) := d_line_end OPS (s_d s) semi g None c in
+            let pe := match ce with Some e => Some e | None => Some (s_spos s) end in
             Ok c' {| s_cur := None; s_rest := []; s_mark := []; s_term := s_term s;
                      s_spos := a; s_lp := s_lp s; s_ln := s_ln s;
-                     s_d := d_next OPS d' g' None; s_started := true |}
+                     s_d := d_next OPS d' pe g' None; s_started := true; s_depth := s_depth s |}
         | TErr e g =>
             Err (PScan e)
                 {| s_cur := s_cur s; s_rest := []; s_mark := []; s_term := s_term s;
                    s_spos := s_spos s; s_lp := s_lp s; s_ln := s_ln s;
-                   s_d := s_d s; s_started := true |}
+                   s_d := s_d s; s_started := true; s_depth := s_depth s |}
         end
     end.
 
@@ -686,12 +709,12 @@ Definition parse_type_parameters (s : pstate) : res nodeT :=
 
 (* ---------------------------------------------------------- struct / interface *)
 
-Definition finish_field (names : list nodeT) (typ : nodeT) (s : pstate) : res nodeT :=
+Definition finish_field (c : C) (names : list nodeT) (typ : nodeT) (s : pstate) : res nodeT :=
   let* (tg, s1) := string_literal_or_none s in
-  let '(c, s2) := drain s1 in
-  Ok (n_field names typ tg c) s2.
+  Ok (n_field names typ tg c) s1.
 
-Definition field_decl (s : pstate) : res nodeT :=
+Definition field_decl (s0 : pstate) : res nodeT :=
+  let '(c, s) := drain s0 in
   match s_cur s with
   | Some (_, TLiteral LIdent _) =>
       let* (name, s1) := identifier 34 s in
@@ -702,23 +725,23 @@ Definition field_decl (s : pstate) : res nodeT :=
         | _ => false
         end in
       if embedded then
-        let* (typ, s2) := qualified_ident (Some name) s1 in finish_field [] typ s2
+        let* (typ, s2) := qualified_ident (Some name) s1 in finish_field c [] typ s2
       else
         let* (names, s2) := identifier_list (Some name) s1 in
         if Nat.eqb (length names) 1 && cur_is s2 (KOp OBarackLeft) then
           let* (typ, s3) := array_or_typeargs s2 in
           if is_tag GIndex typ then
             match pop_last names with
-            | Some (_, nm) => finish_field [] (set_kid typ 0 nm) s3
+            | Some (_, nm) => finish_field c [] (set_kid typ 0 nm) s3
             | None => Panic 806
             end
-          else finish_field names typ s3
+          else finish_field c names typ s3
         else
-          let* (typ, s3) := k_type self s2 in finish_field names typ s3
+          let* (typ, s3) := k_type self s2 in finish_field c names typ s3
   | Some (_, TOperator OStar) =>
-      let* (_, s1) := next s in
+      let* (pos, s1) := expect (KOp OStar) 33 s in
       let* (typ, s2) := qualified_ident None s1 in
-      finish_field [] typ s2
+      finish_field c [] (mk GTypePointer [pos] [] [typ]) s2
   | _ => Err (else_error s 35) s
   end.
 
@@ -1087,7 +1110,7 @@ Definition unary_body (s : pstate) : res nodeT :=
       | UCAnd =>
           let* (_, s1) := next s in
           let* (x, s2) := k_unary self s1 in
-          Ok (n_operation pos op (unparen x) None) s2
+          Ok (n_operation pos op x None) s2
       | UCArrow =>
           let* (_, s1) := next s in
           let* (x, s2) := k_unary self s1 in
@@ -1240,10 +1263,8 @@ Definition parse_go_defer (is_go : bool) (s : pstate) : res nodeT :=
   let* (pos, s1) := expect (KKw (if is_go then KGo else KDefer)) 82 s in
   let* (e, s2) := k_expr self s1 in
   if is_tag GCall e then
-    if is_go then
-      let* (_, s3) := skipped (KOp OSemiColon) s2 in Ok (mk GGo [pos] [] [e]) s3
-    else
-      let* (_, s3) := expect (KOp OSemiColon) 83 s2 in Ok (mk GDefer [pos] [] [e]) s3
+    let* (_, s3) := skipped (KOp OSemiColon) s2 in
+    Ok (mk (if is_go then GGo else GDefer) [pos] [] [e]) s3
   else Err (else_error_at (a_plus2 OPS pos) 84) s2.
 
 Definition parse_return_stmt (s : pstate) : res nodeT :=
@@ -1301,7 +1322,7 @@ Definition if_body (s : pstate) : res nodeT :=
         Ok (mk GIf [pos] [] [nopt (fst ic); snd ic; body; st]) s5
     | Some (_, TOperator OBraceLeft) =>
         let* (blk, s5) := k_block self s4 in
-        let* (_, s6) := expect (KOp OSemiColon) 94 s5 in
+        let* (_, s6) := skipped (KOp OSemiColon) s5 in
         Ok (mk GIf [pos] [] [nopt (fst ic); snd ic; body; blk]) s6
     | _ => Err (else_error s4 95) s4
     end
@@ -1328,7 +1349,11 @@ Definition is_type_switch (tag : option nodeT) (s : pstate) : res bool :=
               | p :: _ => Err (else_error_at p 96) s
               | [] => Panic 2043
               end
-          | _ => Panic 2045           (* unreachable!() *)
+          | _ =>
+              match n_ps t with
+              | p :: _ => Err (else_error_at p 97) s
+              | [] => Panic 2043
+              end
           end
         else Ok false s
       else Ok false s
@@ -1651,11 +1676,14 @@ Definition parse_const_spec (index : nat) (s : pstate) : res nodeT :=
   let* (tv, s3) :=
     (if eq then
        let* (vs, s3) := expression_list s2 in Ok (None, vs) s3
-     else if cur_is s2 (KLit LIdent) then
-       let* (typ, s3) := k_type self s2 in
-       let* (_, s4) := expect (KOp OAssign) 122 s3 in
-       let* (vs, s5) := expression_list s4 in Ok (Some typ, vs) s5
-     else Ok (None, []) s2) in
+     else
+       let* (o, s3) := k_type_or_none self s2 in
+       match o with
+       | Some typ =>
+           let* (_, s4) := expect (KOp OAssign) 122 s3 in
+           let* (vs, s5) := expression_list s4 in Ok (Some typ, vs) s5
+       | None => Ok (None, []) s3
+       end) in
   let '(typ, vs) := tv in
   let has_typ := match typ with Some _ => true | None => false end in
   if Nat.eqb (length vs) 0 && (has_typ || Nat.eqb index 0)
@@ -1850,14 +1878,14 @@ Definition entry_stmt (s : pstate) : res nodeT :=
 (* one unfolding of the recursion *)
 Definition step : parsers :=
   {| k_type := type_body;
-     k_type_or_none := type_or_none_body;
+     k_type_or_none := nested 140 type_or_none_body;
      k_expr := expr_body;
-     k_unary := unary_body;
+     k_unary := nested 141 unary_body;
      k_binary := binary_body;
      k_litvalue := lit_value_body;
      k_block := block_body;
-     k_stmt := stmt_body;
-     k_if := if_body |}.
+     k_stmt := nested 142 stmt_body;
+     k_if := nested 143 if_body |}.
 
 End Step.
 
@@ -1880,7 +1908,7 @@ Fixpoint parsers_at (d : nat) : parsers :=
 
 Definition init_state (a0 : A) (d0 : D) (elems : list selem) (term : sterm) : pstate :=
   {| s_cur := None; s_rest := elems; s_mark := elems; s_term := term; s_spos := a0;
-     s_lp := 1; s_ln := 0; s_d := d0; s_started := false |}.   (* expr_level: i32 default = 0 *)
+     s_lp := 1; s_ln := 0; s_d := d0; s_started := false; s_depth := 0 |}.   (* expr_level: i32 default = 0 *)
 
 End Core.
 
